@@ -423,3 +423,20 @@ package server
 //@   acquires 6
 //@   locks C25
 //@   guards C26
+
+// BMP receiver: the map of monitored routers.
+//@ locklevel BMPReceiver.routersMu 1
+//@ guarded BMPReceiver.routers by routersMu
+//@ contract (*BMPReceiver).AddRouter, (*BMPReceiver).deleteRouter, (*BMPReceiver).RemoveRouter, (*BMPReceiver).getRouters, (*BMPReceiver).getRouter, (*BMPReceiver).GetRouters
+//@   props C25 C26
+//@   nosafety
+//@   acquires 1
+//@   locks C25
+//@   guards C26
+//@ contract (*BMPReceiver)._addRouter
+//@   props C25 C26
+//@   nosafety
+//@   requires verif_wheld(&b.routersMu)
+//@   acquires 2
+//@   locks C25
+//@   guards C26
